@@ -6,7 +6,7 @@ prepare = kbridge.prepare_for('C05')    # regenerates only the generated files t
 ASSUMPTIONS = ['condition trees of depth <= 3 over timeouts, shared events and processes; one environment (the mixed-environment refusal is checked by a direct call)']
 SPEC = [(8, 'cond'), (3, 'chain'), (1, 'outcome'), (1, 'plan:cond'), (1, 'plan:chain')]
 def run(ctx):
-    res = kprops.run_kernel(ctx, 'C05', SPEC, 2000, 60000, oracles=[kprops.oracle_time_monotone, koracle.oracle_c05],
+    res = kprops.run_kernel(ctx, 'C05', SPEC, 2000, 60000, attribute=kprops.stop_is_not_the_cause, oracles=[kprops.oracle_time_monotone, koracle.oracle_c05],
                             nontrivial=lambda c, lines: any(' got cv[' in l for l in lines),
                             rule='seeded random script programs; non-trivial = distinct script in which a process received a ConditionValue')
     # mixing environments is refused with ValueError (direct calls on the implementation; every shape of "mixed")
